@@ -2028,19 +2028,9 @@ class unyt_array(np.ndarray):
         if unit is None:
             out_arr = np.array(out_arr, copy=_COPY_IF_NEEDED)
         elif ufunc in (modf, divmod_):
-            out_arr = tuple(ret_class(o, unit) for o in out_arr)
-        elif out_arr.shape == ():
-            out_arr = unyt_quantity(np.asarray(out_arr), unit)
-        elif out_arr.size == 1:
-            out_arr = unyt_array(np.asarray(out_arr), unit)
+            out_arr = tuple(_wrap_ufunc_output(o, unit, ret_class) for o in out_arr)
         else:
-            if issubclass(ret_class, unyt_quantity):
-                # This happens if you do ndarray * unyt_quantity.
-                # Explicitly casting to unyt_array avoids creating a
-                # unyt_quantity with size > 1
-                out_arr = unyt_array(out_arr, unit)
-            else:
-                out_arr = ret_class(out_arr, unit, bypass_validation=True)
+            out_arr = _wrap_ufunc_output(out_arr, unit, ret_class)
         if out is not None:
             if mul != 1:
                 # scale the raw buffer: going through ``out`` would dispatch on
@@ -2556,6 +2546,22 @@ def ustack(arrs, axis=0):
     v = np.stack._implementation(arrs, axis=axis)
     v = _validate_numpy_wrapper_units(v, arrs)
     return v
+
+
+def _wrap_ufunc_output(out_arr, unit, ret_class):
+    # class of one output of a ufunc: a unyt_quantity for a zero-dimensional
+    # result, an array otherwise
+    if out_arr.shape == ():
+        return unyt_quantity(np.asarray(out_arr), unit)
+    elif out_arr.size == 1:
+        return unyt_array(np.asarray(out_arr), unit)
+    elif issubclass(ret_class, unyt_quantity):
+        # This happens if you do ndarray * unyt_quantity.
+        # Explicitly casting to unyt_array avoids creating a
+        # unyt_quantity with size > 1
+        return unyt_array(out_arr, unit)
+    else:
+        return ret_class(out_arr, unit, bypass_validation=True)
 
 
 def _get_binary_op_return_class(cls1, cls2):
